@@ -278,6 +278,13 @@ def exp(a):
     return _unary(a, lambda v: UEXP(to_real(v)), 'f')
 
 
+ULOG2 = z3.Function('ulog2', R, R)
+
+
+def log2(a):
+    return _unary(a, lambda v: ULOG2(to_real(v)), 'f')
+
+
 def log10(a, where=True):
     return _unary(a, lambda v: ULOG10(to_real(v)), 'f')
 
@@ -850,6 +857,22 @@ def sum_(a, axis=None):
             z = ZERO[base.kind if base.kind != 'b' else 'i']
             return wrap(_sum1(lambda t: z3.If(msk.elem(t), base.elem(t) if base.kind != 'b' else z3.If(base.elem(t), 1, 0), z), base.shape_e[0], 'f' if base.kind == 'f' else 'i'))
         return wrap(_sum1(a.elem, a.shape_e[0], a.kind))
+    if axis is not None and concrete(a.shape_e[axis]) is not None and concrete(a.shape_e[axis]) <= 16 and a.ndim >= 2:
+        # reduction over a concrete, small axis: explicit sum
+        cn = concrete(a.shape_e[axis])
+        rest = tuple(s_ for d, s_ in enumerate(a.shape_e) if d != axis)
+
+        def elem(*ix):
+            acc = None
+            for q in range(cn):
+                jx = list(ix)
+                jx.insert(axis, z3.IntVal(q))
+                v = a.elem(*jx)
+                if a.kind == 'b':
+                    v = z3.If(v, z3.IntVal(1), z3.IntVal(0))
+                acc = v if acc is None else acc + v
+            return acc if acc is not None else ZERO[rk]
+        return SArr(rest, elem, rk)
     if a.ndim == 2 and axis == 1:
         return SArr((a.shape_e[0],), lambda i: _sum1(lambda j: a.elem(i, j), a.shape_e[1], a.kind), rk)
     if a.ndim == 2 and axis == 0:
@@ -901,9 +924,15 @@ def std(a, axis=None):
     raise Unsupported('std pattern')
 
 
+UWAVG = z3.Function('uwavg', AR, AR, I, R)
+
+
 def average(a, axis=None, weights=None):
     if weights is not None:
-        raise Unsupported('weighted average')
+        if axis is None and isinstance(a, SArr) and isinstance(weights, SArr):
+            fa, fw = reshape(a, -1), reshape(weights, -1)
+            return wrap(UWAVG(reify1(lambda t: to_real(fa.elem(t)), 'f'), reify1(lambda t: to_real(fw.elem(t)), 'f'), fa.shape_e[0]))
+        raise Unsupported('weighted average pattern')
     return mean(a, axis)
 
 
